@@ -2,6 +2,7 @@
 inherit "/script";
 
 int n_hb;
+int query_n_hb() { return n_hb; }
 
 void create() { seteuid(getuid()); rec("CREATE " + file_name(this_object())); }
 
